@@ -22,6 +22,7 @@ NOT_DECIDED = 'Agreement with an independent decoder on content (timestamps of u
 def run(ctx, sess):
     ctx.explanation = EXPL
     ctx.not_decided = NOT_DECIDED
+    from .common import relay
     P = sess.prog('default')
     exc = exceptions('C05')
     ctx.rule('C05.1', 'layout witnesses: sizeof/offsetof of every on-disk struct and the format constants equal the published table (static asserts compiled against the repository headers)')
@@ -33,6 +34,8 @@ def run(ctx, sess):
     ctx.rule('C05.15', 'track heads of a repaired file lead to chunks of the expected kind: what pointer repair changes in the head table in memory is written back on every success path (shared with C19.4) - a level that was dropped in memory only keeps its stale offset on disk, where the repair then appends chunks of another track')
     ctx.rule('C05.16', 'the reader of a repaired file returns the time-series entries a walk of the file finds: for every track kind whose index the repair does not rebuild, the reader starts at level 0 and follows the DATA chain (shared with C17.9)')
     ctx.rule('C05.17', 'item lists of a repaired file end where the file ends: for each list head the reader keeps from its first scan (user data, source definitions, signal definitions) the repairing branch of jls_rd_open calls, after the truncation and before anything is appended, a walk that follows item_next and clears it on the last chunk that can still be read and belongs to the list - a link that survives a lost tail names an offset at which the repair then writes an INDEX')
+    ctx.rule('C05.18', 'the index tree reaches every chunk: at close every FSR summary level whose index holds entries is written, unless its single entry is the first chunk of the level below (shared with C01.g) - a pair that no level above names is in the file, passes every CRC and link check, and is invisible to the reader')
+    ctx.rule('C05.19', 'the definitions recovered are the ones the data was laid out with: a refused definition changes nothing in the live definition (shared with C13.2)')
     ctx.rule('C05.14', 'the recorded file length equals the file size also when the writer stopped after END: jls_rd_open remembers that the file header came without its length (TRUNCATED) and, on the path on which the END chunk is found, tests that before it succeeds (and then writes the header through a writable close)')
     ctx.rule('C05.11', 'FSR summary chunks carry what their header announces: the payload length handed to the summary writer is header + entry_count x the entry size that was stored in entry_size_bits (4 x f32 or 4 x f64, chosen by data type), not the size of a fixed struct type')
     ctx.rule('C05.5', 'previous-length bookkeeping: every successful append updates last_payload_length when at the end of the file (also for an empty payload)')
@@ -51,6 +54,9 @@ def run(ctx, sess):
     r12(ctx, P)
     r14(ctx, P)
     item_lists_rule(ctx, P, 'C05.17')
+    from . import c01 as _c01, c13 as _c13
+    relay(ctx, sess, _c01.run, {'C01.g': 'C05.18'}, minimum=1)
+    relay(ctx, sess, _c13.run, {'C13.2': 'C05.19'}, only_functions=('jls_wr_signal_def', 'jls_wr_source_def'), minimum=2)
     from .common import relay
     from . import c19 as _c19, c17 as _c17
     relay(ctx, sess, _c19.run, {'C19.4': 'C05.15'}, minimum=1)
